@@ -9,6 +9,13 @@ LEVEL_NOTE = ("Trusted base: clang 14 front end and CFG builder, the gsa-extract
               "Assumes the shipped configuration (GALOIS_USE_LONGJMP_ABORT, NDEBUG).")
 
 CHECKS = {
+    "C18": ("narrow: exhaustive evaluation, on every GluonSubstrate instantiation of the distributed applications, of the sync "
+            "decision table (9 functions x 4 partition cells against the partition-invariant reference), the sync<w,r> dispatch, "
+            "per-DataCommMode agreement of written and read message fields, index-source agreement between sender and receiver, "
+            "extract/reset and apply/mark wrappers, subset index expressions, bitset reset ranges, send-before-receive, and the "
+            "operation of each expanded sync structure. Proxy values after a sync on real partitions are not decided.",
+            "decision-table evaluation over CFG paths under constant environments, sibling and ordering rules over clang AST/CFG "
+            "facts", "4 C18"),
     "C17": ("narrow: wire-trace equality of the write and the read side of every serialisable type family (raw runs with "
             "byte-count polynomials, user hooks, nested calls expanded recursively, loops), overload bijection, target overwrite "
             "and framing rules over Serialize.h; NetworkBuffered length-prefix width at all six sites, FIFO queue discipline, "
